@@ -32,6 +32,9 @@ PROPS = {
             "C08_function_label_at_start": [],
             "C08_label_kept_by_card_labels": [],
             "C08_label_kept_if_distinct": [],
+            "C08_super_depth_legacy_refuted": [],
+            "C08_import_of_xsuper_repaired": [],
+            "C08_module_import_through_super_repaired": [],
         },
         n_quick=320, n_thorough=3000,
         gates=["obs.ran", "obs.err.InvalidJump", "obs.err.SuperLimitReached", "obs.err.DuplicateModule", "obs.err.NoMain",
